@@ -3,6 +3,7 @@ package vtx
 import (
 	"encoding/json"
 	"fmt"
+	"net"
 	"os"
 	"strings"
 	"testing"
@@ -31,6 +32,12 @@ type Profile struct {
 	SkipDeadRelays bool
 	// PostClose checks that nothing stays open after Server.Close.
 	PostClose bool
+	// Resources / Lifecycle enable the C15 oracles after every event.
+	Resources bool
+	Lifecycle bool
+	// Quiet2h: after the last event advance 2 h and require that nothing happens on
+	// behalf of ended allocations (no lifecycle event, no socket operation).
+	Quiet2h bool
 }
 
 // Replay is the artefact stored with a violation.
@@ -67,6 +74,7 @@ func runOne(t *testing.T, p *Profile, ch *rep.Chooser, fixedCfg *Config, events 
 				cfg = p.Configs[ch.Pick(len(p.Configs))]
 			}
 			rp = Replay{Engine: "vtx", Profile: p.Name, Config: cfg}
+			rep.Current(map[string]any{"profile": p.Name, "config": cfg.String(), "choices_prefix": ch.Taken, "sig_hint": p.Name})
 			w, err := NewWorld(cfg, p.Clients, p.Peers)
 			if err != nil {
 				v = &Viol{Tag: "harness", Sig: "harness:newworld", Detail: err.Error()}
@@ -86,6 +94,16 @@ func runOne(t *testing.T, p *Profile, ch *rep.Chooser, fixedCfg *Config, events 
 				st.transitions++
 				if v = x.CheckCount(ev); v != nil {
 					return false
+				}
+				if p.Resources {
+					if v = x.CheckResources(ev); v != nil {
+						return false
+					}
+				}
+				if p.Lifecycle {
+					if v = x.CheckLifecycle(ev); v != nil {
+						return false
+					}
 				}
 				if v = x.Sweep(ev); v != nil {
 					return false
@@ -155,7 +173,43 @@ func runOne(t *testing.T, p *Profile, ch *rep.Chooser, fixedCfg *Config, events 
 					}
 				}
 			}
-			w.Close()
+			if ok && p.Quiet2h && !ch.Abort && len(x.M.Allocs) == 0 {
+				life0, mark := len(w.Life), w.Net.Mark()
+				Advance(2 * time.Hour)
+				if len(w.Life) != life0 {
+					v = x.viol("lifecycle", "event-after-everything-ended", Event{K: "adv", Rule: "quiet-2h", L: -1}, fmt.Sprint(w.Life[life0:], x.Trace))
+					ok = false
+				} else if evs := w.Net.Since(mark); len(evs) > 0 {
+					v = x.viol("resources", "socket-activity-after-everything-ended", Event{K: "adv", Rule: "quiet-2h", L: -1}, fmt.Sprint(evs[0], x.Trace))
+					ok = false
+				}
+			}
+			w.CloseServer()
+			defer w.CloseEndpoints()
+			if ok && (p.Lifecycle || p.Resources) && !ch.Abort {
+				// after Server.Close nothing remains
+				x.M.Closed = true
+				for name := range x.M.Allocs {
+					x.M.Drop(name)
+				}
+				fin := Event{K: "close-server", L: -1}
+				if p.Resources {
+					if v = x.CheckResources(fin); v != nil {
+						ok = false
+					} else if o := serverSideConns(w); len(o) > 0 {
+						v = x.viol("resources", "connection-open-after-server-close", fin, fmt.Sprint(o, x.Trace))
+						ok = false
+					} else if n := w.Srv.AllocationCount(); n != 0 {
+						v = x.viol("resources", "allocations-survive-server-close", fin, fmt.Sprint(n, x.Trace))
+						ok = false
+					}
+				}
+				if ok && p.Lifecycle {
+					if v = x.CheckLifecycle(fin); v != nil {
+						ok = false
+					}
+				}
+			}
 			if ok && p.PostClose && !ch.Abort {
 				if o := w.Net.OpenUDP(); len(o) > 0 {
 					v = &Viol{Tag: "post-close", Sig: "post-close:udp-socket-open", Detail: fmt.Sprint(o, x.Trace)}
@@ -268,4 +322,21 @@ func RunEvents(t *testing.T, p *Profile, cfg Config, events []Event, r *rep.Repo
 	if len(events) > 0 {
 		r.Class(lastResp(rp.Trace))
 	}
+}
+
+// serverSideConns lists open TCP endpoints owned by the server (accepted
+// control connections, relay-side peer connections).
+func serverSideConns(w *World) []string {
+	var out []string
+	for _, c := range w.Net.Conns() {
+		if c.IsClosed() {
+			continue
+		}
+		la := c.LocalAddr().(*net.TCPAddr) //nolint:forcetypeassert
+		if la.IP.Equal(w.SrvAddr.IP) || la.IP.Equal(w.Relay4) || la.IP.Equal(w.Relay6) {
+			out = append(out, la.String()+"->"+c.RemoteAddr().String())
+		}
+	}
+
+	return out
 }
